@@ -82,6 +82,7 @@ pub struct Record {
     successor: OnceLock<Arc<Record>>,
     value_source: Option<Weak<Record>>,
     successor_safe: AtomicBool,
+    retirement_queued: AtomicBool,
     extent_state: AtomicU32,
 }
 
@@ -162,6 +163,7 @@ impl Record {
             successor: OnceLock::new(),
             value_source: None,
             successor_safe: AtomicBool::new(false),
+            retirement_queued: AtomicBool::new(false),
             extent_state: AtomicU32::new(0),
         }
     }
@@ -202,6 +204,7 @@ impl Record {
             successor: OnceLock::new(),
             value_source: None,
             successor_safe: AtomicBool::new(false),
+            retirement_queued: AtomicBool::new(false),
             extent_state: AtomicU32::new(0),
         }
     }
@@ -241,6 +244,7 @@ impl Record {
             successor: OnceLock::new(),
             value_source: Some(Arc::downgrade(predecessor)),
             successor_safe: AtomicBool::new(false),
+            retirement_queued: AtomicBool::new(false),
             extent_state: AtomicU32::new(0),
         }
     }
@@ -352,6 +356,17 @@ impl Record {
             record.successor_safe.store(true, Ordering::Release);
         }
         true
+    }
+
+    /// The flusher has seen this generation's retirement entry. A replacement
+    /// queues the successor's write together with it, so from then on the
+    /// successor is the flusher's responsibility.
+    pub(crate) fn mark_retirement_queued(&self) {
+        self.retirement_queued.store(true, Ordering::Release);
+    }
+
+    pub(crate) fn retirement_queued(&self) -> bool {
+        self.retirement_queued.load(Ordering::Acquire)
     }
 
     pub(crate) fn acquire_extent(&self) -> Option<ExtentReadGuard<'_>> {
